@@ -13,7 +13,7 @@ pub struct C03;
 /// oracle of the small-scope search: Ok(non-trivial?) or the discrepancy
 fn small_oracle(docs: &[&crate::model::Node], bytes: &[Vec<u8>]) -> Result<bool, String> {
     let occs: Vec<&crate::model::Node> = docs.to_vec();
-    let schema = crate::refinf::infer("r", &occs);
+    let schema = crate::refinf::infer(&docs[0].name, &occs);
     let root = crate::sut::parse_seq(bytes).map_err(|(i, e)| format!("document #{} rejected: {}", i + 1, e))?;
     let src = root.to_serde_struct(&Options::quick_xml_de());
     let defs = crate::rendered::read_lines(&src).map_err(|e| format!("output unreadable: {}\n{}", e, src))?;
@@ -139,6 +139,49 @@ impl Property for C03 {
                 return Err((Failure::new(format!("small-scope exhaustive search: {}", e)).with_detail(json!({"documents": docs})), json!({"small_scope_documents": docs})));
             }
         }
+        // attribute-list family: every triple of occurrences of <p> whose attribute lists are ordered subsets (<= 2) of
+        // names that concatenate to each other (a, b, ab, ba), in one document and spread over documents
+        {
+            let names = ["a", "b", "ab", "ba"];
+            let mut lists: Vec<Vec<String>> = vec![vec![]];
+            for x in names {
+                lists.push(vec![x.to_string()]);
+                for y in names {
+                    if x != y {
+                        lists.push(vec![x.to_string(), y.to_string()]);
+                    }
+                }
+            }
+            let p = |attrs: &Vec<String>| crate::model::Node { name: "p".to_string(), attrs: attrs.clone(), items: vec![] };
+            for l1 in &lists {
+                for l2 in &lists {
+                    for l3 in &lists {
+                        let one = vec![crate::model::Node { name: "r".into(), attrs: vec![], items: vec![crate::model::Item::Child(p(l1)), crate::model::Item::Child(p(l2)), crate::model::Item::Child(p(l3))] }];
+                        let three: Vec<crate::model::Node> = [l1, l2, l3].iter().map(|l| crate::model::Node { name: "p".into(), attrs: (*l).clone(), items: vec![] }).collect();
+                        for docs in [one, three] {
+                            let bytes: Vec<Vec<u8>> = docs.iter().map(|d| crate::xmlser::canonical(d).into_bytes()).collect();
+                            let refs: Vec<&crate::model::Node> = docs.iter().collect();
+                            st.evaluations += 1;
+                            st.nontrivial_enumerated += 1;
+                            st.count("attribute_list_family.cases");
+                            let name = refs[0].name.clone();
+                            let schema = crate::refinf::infer(&name, &refs);
+                            let res = (|| -> Result<(), String> {
+                                let root = crate::sut::parse_seq(&bytes).map_err(|(i, e)| format!("document #{} rejected: {}", i + 1, e))?;
+                                let src = root.to_serde_struct(&Options::quick_xml_de());
+                                let defs = crate::rendered::read_lines(&src).map_err(|e| format!("output unreadable: {}", e))?;
+                                let tree = crate::rendered::build_tree(&defs, "@", "$text").map_err(|e| format!("not a tree: {}", e))?;
+                                compare_schema(&schema, &tree, "").map_err(|e| format!("{}\n{}", e, src))
+                            })();
+                            if let Err(e) = res {
+                                let docs_s: Vec<String> = bytes.iter().map(|b| String::from_utf8_lossy(b).to_string()).collect();
+                                return Err((Failure::new(format!("attribute-list family: {}", e)).with_detail(json!({"documents": docs_s})), json!({"small_scope_documents": docs_s})));
+                            }
+                        }
+                    }
+                }
+            }
+        }
         // counter / size thresholds: a child repeated n times inside one parent occurrence, n parent occurrences
         let ns: &[usize] = match tier {
             Tier::Quick => &[2, 3, 15, 16, 17, 31, 32, 33, 63, 64, 65, 127, 128, 129, 254, 255, 256, 257, 258, 511, 512, 513, 1023, 1024, 1025],
@@ -203,7 +246,7 @@ impl Property for C03 {
         }
     }
     fn rule(&self) -> String {
-        "small-scope exhaustive: every ordered pair of documents over {root r, child names a,b, attribute k, optional text} with <= 3 elements (quick; 300k pairs) or <= 4 elements (thorough; 76M pairs) and depth <= 3, plus all triples over <= 2 (quick) / <= 3 (thorough) elements and all 4-tuples over <= 2 elements (thorough); a threshold family (a child repeated n times inside one parent occurrence / n parent occurrences, n around every power of two up to 1024, up to 65537 in thorough); sampled: tape-decoded sequences of 1..5 well-formed documents over small per-case name pools (all name classes, 1 in 8 wide), full surface variation; compared with an independent reference inference over the generator's DOM at two observation points (rendered structs, returned Element tree). Non-trivial = the reference schema holds at least one Optional or Vec decision and some position has two or more occurrences; distinct by hash of the structural documents.".into()
+        "small-scope exhaustive: every ordered pair of documents over {root r, child names a,b, attribute k, optional text} with <= 3 elements (quick; 300k pairs) or <= 4 elements (thorough; 76M pairs) and depth <= 3, plus all triples over <= 2 (quick) / <= 3 (thorough) elements and all 4-tuples over <= 2 elements (thorough); an attribute-list family (every triple of occurrences whose attribute lists are ordered subsets of a, b, ab, ba); a threshold family (a child repeated n times inside one parent occurrence / n parent occurrences, n around every power of two up to 1024, up to 65537 in thorough); sampled: tape-decoded sequences of 1..5 well-formed documents over small per-case name pools (all name classes, 1 in 8 wide), full surface variation; compared with an independent reference inference over the generator's DOM at two observation points (rendered structs, returned Element tree). Non-trivial = the reference schema holds at least one Optional or Vec decision and some position has two or more occurrences; distinct by hash of the structural documents.".into()
     }
     fn assumptions(&self) -> Vec<String> {
         vec![
